@@ -15,7 +15,7 @@ META = {
     "level": "proof",
     "rule": 'B1 case = (class, length incl. 0, resolution incl. exact multiples and > length)' + ((" | falsifier: " + F.META.get("rule", "")) if F and hasattr(F, "META") else ""),
     "modelled": 'split of Drift, Quadrupole, correctors, unsplittable elements (Elements.lean); forwarded keywords (Features.lean)',
-    "gap": 'vectorised lengths are falsifier-only',
+    "gap": 'vectorised lengths: piece count / sum / resolution are theorems (vector_lengths), tracking of vectorised pieces is falsifier-only',
     "assumptions": ((F.META.get("assumptions", []) if F and hasattr(F, "META") else []) + []),
 }
 
